@@ -238,7 +238,14 @@ func (vc *VC) trIdent(e *EIdent, env *specEnv, c *Clause) sval {
 		refs := vc.localRefs[e.Name]
 		best := -1
 		bestDepth := -1
+		// a ghost variable of the contracts is never shadowed by a local of a helper that is verified inline (the
+		// helper's author cannot know the ghost names; a refactoring must not capture them)
+		_, gdecl, isGhost := vc.ghostKey(e.Name)
+		isGhost = isGhost && (gdecl == nil || gdecl.Kind == "var")
 		for i, r := range refs {
+			if isGhost && r.b.Parent() != vc.fn {
+				continue
+			}
 			inForce, level := vc.dominatesHere(r.b)
 			if !inForce {
 				continue
